@@ -31,6 +31,122 @@ YAML_STRS = ["", "a", "null", "Null", "NULL", "~", "true", "True", "TRUE", "fals
              "n", "y", "N", "Y", "~a", "a~", "null~", "nul", "TRUE ", "﻿a"]
 
 
+RFC8949_A = ["00", "01", "0a", "17", "1818", "1819", "1864", "1903e8", "1a000f4240", "1b000000e8d4a51000", "1bffffffffffffffff", "c249010000000000000000",
+             "3bffffffffffffffff", "c349010000000000000000", "20", "29", "3863", "3903e7", "f90000", "f98000", "f93c00", "fb3ff199999999999a", "f93e00", "f97bff",
+             "fa47c35000", "fa7f7fffff", "fb7e37e43c8800759c", "f90001", "f90400", "f9c400", "fbc010666666666666", "f97c00", "f97e00", "f9fc00", "fa7f800000",
+             "fa7fc00000", "faff800000", "fb7ff0000000000000", "fb7ff8000000000000", "fbfff0000000000000", "f4", "f5", "f6", "f7", "f0", "f8ff", "f814", "f816",
+             "c074323031332d30332d32315432303a30343a30305a", "c11a514b67b0", "d74401020304", "40", "4401020304", "60", "6161", "6449455446", "62225c", "62c3bc", "63e6b0b4",
+             "64f0908591", "80", "83010203", "8301820203820405", "98190102030405060708090a0b0c0d0e0f101112131415161718181819", "a0", "a201020304", "a26161016162820203",
+             "826161a161626163", "a56161614161626142616361436164614461656145", "5f42010243030405ff", "7f657374726561646d696e67ff", "9fff", "9f018202039f0405ffff",
+             "9f01820203820405ff", "83018202039f0405ff", "83019f0203ff820405", "9f0102030405060708090a0b0c0d0e0f101112131415161718181819ff", "bf61610161629f0203ffff",
+             "826161bf61626163ff", "bf6346756ef563416d7421ff",
+             # beyond the appendix: short floats (subnormal, non-exact), tags with wrong content, breaks out of place, truncated items, duplicate keys, invalid text
+             "f903ff", "f97c01", "f97e01", "fa00000001", "fa007fffff", "fa7f800001", "fa7fc00001", "fa3f800000", "fb3ff0000000000000", "fb7ff0000000000001", "f98001", "fa80000000",
+             "c240", "c24100", "c2420001", "c243010000", "c340", "c34100", "c25f4101ff", "c201", "c2", "c3f6", "c46101", "ff", "81ff", "a1ff", "a101ff", "bf01ff", "bf0102", "9f01",
+             "18", "19ff", "1a000000", "1b00", "5a", "6261", "42", "1c", "3d", "5e", "7c", "9d", "be", "dc", "fc", "fd", "fe", "61ff", "62c328", "63e282", "61c3", "62c3bcff",
+             "a2010201" + "03", "a3616101616102616203", "a2f6f5f4f6", "a18001", "a1a00001", "8000", "000102", "00ff", "0018", "f6f6f6", "1b7fffffffffffffff", "1b8000000000000000",
+             "3b7fffffffffffffff", "3b8000000000000000", "c2487fffffffffffffff", "c2488000000000000000", "c348ffffffffffffffff", "c249000000000000000001",
+             "9a00000001f6", "9b0000000000000001f6", "9bffffffffffffffff", "bb0000000000000001f6f5", "5b0000000000000001ff", "7b000000000000000161", "7bffffffffffffffff61",
+             "98", "9801", "b801", "d8", "d802", "d8024101", "d9000241ff", "f818", "f8", "e0", "f3", "f7"]
+
+
+def cbor_enc(rng, v, loose):
+    """a Python CBOR encoder for generated inputs of the reader ([loose]: also longer-than-needed widths, indefinite lengths)"""
+    import struct
+    def head(major, n):
+        forms = []
+        if n <= 23:
+            forms.append(bytes([major * 32 + n]))
+        if n <= 0xff:
+            forms.append(bytes([major * 32 + 24, n]))
+        if n <= 0xffff:
+            forms.append(bytes([major * 32 + 25]) + n.to_bytes(2, "big"))
+        if n <= 0xffffffff:
+            forms.append(bytes([major * 32 + 26]) + n.to_bytes(4, "big"))
+        forms.append(bytes([major * 32 + 27]) + n.to_bytes(8, "big"))
+        return rng.choice(forms) if loose and rng.random() < 0.3 else forms[0]
+    def go(v):
+        if v is None:
+            return b"\xf6"
+        if v is True:
+            return b"\xf5"
+        if v is False:
+            return b"\xf4"
+        if isinstance(v, int):
+            if 0 <= v < 2 ** 64:
+                return head(0, v)
+            if -2 ** 64 <= v < 0:
+                return head(1, -1 - v)
+            u = v if v >= 0 else -1 - v
+            b = u.to_bytes((u.bit_length() + 7) // 8 or 1, "big")
+            return bytes([0xc2 if v >= 0 else 0xc3]) + head(2, len(b)) + b
+        if isinstance(v, float):
+            r = rng.random()
+            if loose and r < 0.3:
+                try:
+                    return b"\xf9" + struct.pack(">e", v)
+                except (OverflowError, struct.error):
+                    pass
+            if loose and r < 0.6:
+                try:
+                    return b"\xfa" + struct.pack(">f", v)
+                except (OverflowError, struct.error):
+                    pass
+            return b"\xfb" + struct.pack(">d", v)
+        if isinstance(v, bytes):
+            return head(2, len(v)) + v
+        if isinstance(v, str):
+            b = v.encode("utf-8")
+            return head(3, len(b)) + b
+        if isinstance(v, list):
+            if loose and rng.random() < 0.3:
+                return b"\x9f" + b"".join(go(x) for x in v) + b"\xff"
+            return head(4, len(v)) + b"".join(go(x) for x in v)
+        if isinstance(v, dict):
+            items = b"".join(go(k) + go(x) for k, x in v.items())
+            if loose and rng.random() < 0.3:
+                return b"\xbf" + items + b"\xff"
+            return head(5, len(v)) + items
+        raise ValueError(v)
+    return go(v)
+
+
+def cbor_py_value(rng, depth):
+    r = rng.random()
+    if depth == 0 or r < 0.45:
+        return rng.choice([None, True, False, 0, 1, 23, 24, 255, 256, 65535, 65536, 2 ** 32 - 1, 2 ** 32, 2 ** 63 - 1, 2 ** 63, 2 ** 64 - 1, 2 ** 64, -1, -24, -25, -256, -257,
+                           -2 ** 63, -2 ** 63 - 1, -2 ** 64, -2 ** 64 - 1, 10 ** 30, -10 ** 30, 0.0, -0.0, 1.0, 1.5, -2.5, 65504.0, 65505.0, 5.960464477539063e-08, 6.103515625e-05,
+                           3.4028234663852886e+38, 1e39, 1.401298464324817e-45, 1e-46, 0.1, 1e300, 5e-324, float("inf"), float("-inf"), float("nan"), 100000.0, 0.00006103515625 / 3,
+                           b"", b"a", b"\x00\xff", "", "a", "é", "\U0001f600", "a" * 24, "b" * 256])
+    if r < 0.75:
+        return [cbor_py_value(rng, depth - 1) for _ in range(rng.randint(0, 4))]
+    keys = [1, "a", "b", True, None, -1, 2 ** 64, "é", b"k", 1.5]
+    return {rng.choice(keys): cbor_py_value(rng, depth - 1) for _ in range(rng.randint(0, 3))}
+
+
+def cbor_docs(rng, tier):
+    docs = [bytes.fromhex(h) for h in RFC8949_A]
+    n = 300 if tier == "quick" else 6000
+    for _ in range(n):
+        d = b"".join(cbor_enc(rng, cbor_py_value(rng, rng.choice([0, 1, 2, 3])), loose=rng.random() < 0.7) for _ in range(rng.choice([1, 1, 1, 2, 3])))
+        docs.append(d)
+        if d and rng.random() < 0.6:
+            b = bytearray(d)
+            for _ in range(rng.choice([1, 1, 2])):
+                r = rng.random()
+                i = rng.randrange(len(b)) if b else 0
+                if r < 0.35 and b:
+                    b[i] = rng.choice([0x00, 0x17, 0x18, 0x1b, 0x1c, 0x1f, 0x40, 0x5f, 0x60, 0x7f, 0x80, 0x9f, 0xa0, 0xbf, 0xc2, 0xc3, 0xc4, 0xf4, 0xf6, 0xf7, 0xf8, 0xf9, 0xfa, 0xfb, 0xff, rng.randrange(256)])
+                elif r < 0.55 and b:
+                    del b[i]
+                elif r < 0.75:
+                    b.insert(i, rng.randrange(256))
+                else:
+                    b = b[:i]
+            docs.append(bytes(b))
+    return docs
+
+
 def yaml_values(rng, tier):
     vals = [S(s.encode("utf-8")) for s in YAML_STRS]
     vals += [S(b"\xff"), S(b"a\xffb"), Y(b""), Y(b"\x00\xff"), Y(b"abc"), NULL, TRUE, FALSE, I(0), I(-5), B(10 ** 30), B(-10 ** 30), F(1.5), F(-0.0), F(1e300), F(5e-324), POS_INF, NEG_INF, NAN,
@@ -83,6 +199,17 @@ def gen(ctx):
     # model correspondence: the writer alone, the resolution of plain scalars alone, the tabular reader on raw text
     for v in yaml_values(rng, tier):
         cases.append(dict(filter="toyaml", inputs=[v], kind="yaml-write"))
+        cases.append(dict(filter="tocbor", inputs=[v], kind="cbor-write"))
+    for z in [0, 23, 24, 255, 256, 65535, 65536, 2 ** 32 - 1, 2 ** 32, 2 ** 63 - 1, -1, -24, -25, -256, -257, -65536, -65537, -2 ** 32, -2 ** 32 - 1, -2 ** 63]:
+        cases.append(dict(filter="tocbor", inputs=[I(z)], kind="cbor-write"))
+    for z in [2 ** 63, 2 ** 64 - 1, 2 ** 64, 2 ** 64 + 1, -2 ** 63 - 1, -2 ** 64, -2 ** 64 - 1, 256 ** 23, 256 ** 24 - 1, 256 ** 24, 256 ** 255, 256 ** 256, -256 ** 24, -256 ** 24 - 1, 0, 5, -5]:
+        cases.append(dict(filter="tocbor", inputs=[B(z)], kind="cbor-write"))
+    for f in [0.0, -0.0, 1.0, 1.5, 65504.0, 65505.0, 65520.0, 5.960464477539063e-08, 2.9802322387695312e-08, 6.103515625e-05, 6.097555160522461e-05, 3.4028234663852886e+38, 3.402823466385289e+38,
+              1e39, 1.401298464324817e-45, 7.006492321624085e-46, 1.1754943508222875e-38, 1.1754942106924411e-38, 0.1, 1e300, 5e-324, 2.2250738585072014e-308, 100000.0, 16777216.0, 16777217.0, -2.5, 0.333251953125]:
+        cases.append(dict(filter="tocbor", inputs=[F(f)], kind="cbor-write"))
+    cases += [dict(filter="tocbor", inputs=[x], kind="cbor-write") for x in (POS_INF, NEG_INF, NAN, D("1.10"), D("1e1000"), D("-0.0"), D("0.5"), D("65504"), D("1e-7"))]
+    for d in cbor_docs(rng, tier):
+        cases.append(dict(filter="fromcbor", inputs=[Y(d)], kind="cbor-read"))
     alpha = ["a", "b", "1", "0", "-", "+", ".", "e", "x", "o", "_", " ", ":", "#", "~", "n", "u", "l", "N", "f", "i", "E", "9", "\t", ",", "?", "!"]
     docs = list(YAML_STRS)
     for _ in range(300 if tier == "quick" else 6000):
